@@ -155,9 +155,9 @@ func findGoFiles(cwd, path string) (_ []sourcePath, err error) {
 			cwd = resolved
 		}
 		relativeTo = cwd
-		path = filepath.Join(relativeTo, path)
+		path = cleanPath(relativeTo + string(filepath.Separator) + path)
 	} else {
-		path = filepath.Clean(path) // drop extraneous ., .., etc.
+		path = cleanPath(path) // drop extraneous ., .., etc.
 	}
 
 	var paths []sourcePath
@@ -191,6 +191,27 @@ func findGoFiles(cwd, path string) (_ []sourcePath, err error) {
 	})
 
 	return paths, err
+}
+
+// cleanPath drops extraneous ".", ".." and separators from a path. A ".."
+// that follows a symbolic link to a directory leads to the parent of the
+// directory linked to, not to the directory that holds the link: that is the
+// file the operating system would open under the name.
+func cleanPath(path string) string {
+	if !strings.Contains(path, "..") {
+		return filepath.Clean(path)
+	}
+
+	// The last element is left as it is: a link named as an argument is
+	// not followed.
+	dir, base := filepath.Split(path)
+	if base == ".." || base == "." {
+		dir, base = path, ""
+	}
+	if resolved, err := filepath.EvalSymlinks(dir); err == nil {
+		return filepath.Join(resolved, base)
+	}
+	return filepath.Clean(path)
 }
 
 func findFiles(cwd string, patterns []string) (_ []sourcePath, err error) {
